@@ -59,7 +59,7 @@ def check(run: Run) -> None:
     cand = sorted({h["src"] for h in corpus.harvested() if h["mode"] == "exec" and len(h["src"]) < 300} | set(corpus.xonsh_seeds()) | set(corpus.layout_seeds()))
     first = run_ops("c11", [{"src": s, "entries": ("string",)} for s in cand], limit=20.0, batch=100)
     rejected = [s for s, r in zip(cand, first) if r["errors"] and not r["errors"][0].get("hang")]
-    rejected = rng.sample(rejected, min(cfg["snips"], len(rejected))) + [x for x in SPECIAL if x not in GATED]
+    rejected = rng.sample(rejected, min(cfg["snips"], len(rejected))) + [x for x in SPECIAL if x not in GATED] + corpus.invalid_seeds()
     cases, seen = [], set()
 
     def add(src, origin):
@@ -76,6 +76,9 @@ def check(run: Run) -> None:
         add(e["src"], "edit:" + e["op"])
     for p in layouts(run, len(GATED), {1, 3, 5, 7, 12}):   # version-gated syntax under an old py_version
         add(place(sorted(GATED)[p["snippet"] - 1], p["layout"]), "gated:" + p["layout"]["id"])
+    for c in gens.indent(run):
+        if c["outcome"] != "ok":
+            add(c["src"], "indent.tla:" + c["outcome"])
     res = run_ops("c11", [{"src": c["src"], "py_version": (3, 8) if c["origin"].startswith("gated:") else None} for c in cases], limit=20.0, batch=100)
     traces, meta = [], []
     for c, r in zip(cases, res):
